@@ -91,7 +91,7 @@ func c04Scenarios(tier string) []*core.Scenario {
 	}
 	farGaps := []int{32760, 32764, 32765, 32766, 32767, 32768, 32769, 32770, 32772}
 	boundary := []int{0, 1, 2, 124, 125, 126, 127, 128, 129, 130, 131, 140}
-	mk := func(name string, mns []string, ns []int, rule string) *core.Scenario {
+	mk := func(name string, mns []string, ns []int, rule string, secondOrg bool) *core.Scenario {
 		return &core.Scenario{
 			Name: name, Bound: -1, Rule: rule,
 			Bounds: map[string]any{"mnemonics": mns, "gaps": fmt.Sprintf("%d values %d..%d", len(ns), ns[0], ns[len(ns)-1]), "origins": orgs, "directions": []string{"forward", "backward"}, "targets": []string{"label", "numeric"}},
@@ -108,6 +108,11 @@ func c04Scenarios(tier string) []*core.Scenario {
 				}
 				if origin != 0 {
 					hdr += fmt.Sprintf("\tORG 0x%x\n", origin)
+				}
+				if secondOrg {
+					// three bytes of data under a first origin, then the origin proper: the address of output offset k is origin-3+k
+					hdr = strings.TrimSuffix(hdr, fmt.Sprintf("\tORG 0x%x\n", origin)) + "\tORG 0x100\n\tDB 1,2,3\n" + fmt.Sprintf("\tORG 0x%x\n", origin)
+					origin -= 3
 				}
 				gap := ""
 				if n > 0 {
@@ -217,8 +222,9 @@ func c04Scenarios(tier string) []*core.Scenario {
 	rule := "branch mnemonic x every gap (RESB n between branch and target) x forward/backward x label/numeric target x ORG x BITS; the branch is decoded by the reference decoder: condition code, next+disp == real target (sentinel-located), no stray prefix, emitted length == pass-1 size; non-trivial = assembled without error; distinct = distinct (mode, branch bytes)"
 	_ = boundary
 	_ = thorough // both tiers: the full product takes about 20 s
-	scs = append(scs, mk("all_mnemonics_all_gaps", c04All, gaps, rule))
-	scs = append(scs, mk("far_gaps", []string{"JMP", "JE", "CALL", "JNLE"}, farGaps, rule))
+	scs = append(scs, mk("all_mnemonics_all_gaps", c04All, gaps, rule, false))
+	scs = append(scs, mk("far_gaps", []string{"JMP", "JE", "CALL", "JNLE"}, farGaps, rule, false))
+	scs = append(scs, mk("behind_second_org", []string{"JMP", "JE", "CALL"}, append(append([]int{}, boundary...), 32766, 32767, 32768), rule+" - here behind a SECOND ORG (three data bytes under ORG 0x100 come first)", true))
 	scs = append(scs, c04RelaxScenario(tier))
 	// far jumps
 	segs := []int64{0, 1, 8, 0x10, 0xffff, 0x10000, 0x10008}
